@@ -50,6 +50,8 @@ Matches(st) ==
     /\ {[at |-> b.at, for |-> b.for] : b \in bmp'} = RecBmp(st)
 
 Strict(s) == Next /\ act' = s.act /\ Matches(s.st)
+Cur == [act |-> RecAct(Steps[l].act), st |-> Steps[l].st]
+StrictNow == Next /\ act' = Cur.act /\ Matches(Cur.st)
 \* leave the model: adopt what the directory shows
 Adopt(s) ==
     /\ n' = s.st.n /\ par' = RecPar(s.st) /\ loose' = SetOf(s.st.loose) /\ packs' = RecPacks(s.st)
@@ -58,6 +60,8 @@ Adopt(s) ==
     /\ midx' = RecMidx(s.st) /\ cg' = RecCg(s.st)
     /\ bmp' = {[at |-> b.at, for |-> b.for, sel |-> {}] : b \in RecBmp(s.st)}
     /\ idxv' = idxv /\ act' = s.act
+
+AdoptNow == Adopt(Cur)
 
 (* ---- the answers of the accelerator-free reader against the definitions (evaluated in the NEW state) *)
 Ans(r) == SetOf(r)                     \* [0] = KeyError, [-1] = something that is not a set of whole groups
@@ -103,17 +107,19 @@ TraceInit ==
     /\ l = 1 /\ verdict = "ok" /\ failAt = 0 /\ driftAt = 0 /\ asis = 0
     /\ Init
 
+\* Either the step is a step of Accel with that label leading to the projected state, or the model is left
+\* (drift) and the projected state adopted.  Both branches are explored; the harness takes, per history, the
+\* verdict of the branch that conformed longest.
 Consume ==
     /\ l <= Len(Steps)
-    /\ LET s == [act |-> RecAct(Steps[l].act), st |-> Steps[l].st] IN
-         IF ~(Traces[tid].free /\ l = 1) /\ ENABLED Strict(s)
-         THEN Strict(s) /\ driftAt' = driftAt
-         ELSE Adopt(s) /\ driftAt' = IF driftAt = 0 /\ ~(Traces[tid].free /\ l = 1) THEN l ELSE driftAt
+    /\ \/ ~(Traces[tid].free /\ l = 1) /\ driftAt = 0 /\ StrictNow /\ driftAt' = driftAt
+       \/ AdoptNow /\ driftAt' = IF driftAt = 0 /\ ~(Traces[tid].free /\ l = 1) THEN l ELSE driftAt
     /\ l' = l + 1
-    /\ LET c == Clause(Steps[l].obs)' IN
+    /\ \E o \in {Steps[l].obs} :             \* (a bound variable is rigid: the prime applies to the state only)
+         LET c == Clause(o)' IN
          /\ verdict' = IF verdict = "ok" THEN c ELSE verdict
          /\ failAt' = IF verdict = "ok" /\ c # "ok" THEN l ELSE failAt
-    /\ asis' = asis + AsIsCount(Steps[l].obs)'
+         /\ asis' = asis + AsIsCount(o)'
     /\ UNCHANGED tid
 
 Finish ==
